@@ -322,20 +322,24 @@ fn case(src: &mut Src, st: &mut Stats, env: &Env) -> CaseResult {
     // --- parentheses (only when the engine's tree is the reference tree: spans are then known) ---
     let mut wrapped_kinds = vec![];
     let mut wrapped_text = None;
-    if omitted_semi {
-        // `a (b)` would read as a call: with an omitted `;` a wrapped statement start is ambiguous
-        st.exclude("paren-wrap-skipped:omitted-semicolon");
-    } else {
+    {
         // operator-level spans are only known when the engine's tree is the reference tree;
         // atoms and bracketed constructs are complete subexpressions under any operator table
         let same = tree.sexp() == want;
         if !same {
             st.exclude("operator-spans-skipped:engine-tree-differs-from-reference");
         }
+        // with an omitted `;` a wrapped statement start that follows a name would read as a call
+        // (`a (b)`); after a literal, an operator or a closing delimiter it still starts a statement
+        let after_name = |s: &crate::syntax::Span| omitted_semi && s.start > 0 && matches!(toks[s.start - 1].kind, TK::Ref | TK::Func);
         let cands: Vec<&crate::syntax::Span> = spans
             .iter()
             .filter(|s| s.kind != "stmts" && s.end > s.start && (same || matches!(s.kind, "num" | "str" | "bool" | "ref" | "call" | "list" | "map" | "paren")))
+            .filter(|s| !after_name(s))
             .collect();
+        if omitted_semi {
+            st.hist("paren-wrap-with-omitted-semicolon");
+        }
         if !cands.is_empty() {
             let mut w = toks.clone();
             let k = 1 + src.pick(2);
